@@ -291,6 +291,43 @@ func buildOn(p mq.Packet, a *ref.AP, t *sim.Tape, ctor bool) (mq.Packet, []Op, e
 			ops = out
 		}
 	}
+	if t != nil && a.Type == ref.Connect && t.Bool(1, 3) {
+		// the will is attached with only some of its user properties; the last ones
+		// are added afterwards through what Will() returns (the attached message)
+		for i := len(ops) - 1; i >= 0; i-- {
+			if ops[i].Kind != "will" || ops[i].Will == nil {
+				continue
+			}
+			w := *ops[i].Will
+			var ups []int
+			for j, p := range w.Props {
+				if p.ID == 0x26 {
+					ups = append(ups, j)
+				}
+			}
+			if len(ups) == 0 {
+				break
+			}
+			k := 1 + t.Int(len(ups))
+			moved := map[int]bool{}
+			var kv [][2][]byte
+			for _, j := range ups[len(ups)-k:] {
+				moved[j] = true
+				kv = append(kv, [2][]byte{w.Props[j].K, w.Props[j].V})
+			}
+			var keep []ref.Prop
+			for j, p := range w.Props {
+				if !moved[j] {
+					keep = append(keep, p)
+				}
+			}
+			w.Props = keep
+			ops[i].Will = &w
+			rest := append([]Op{{Kind: "editwill", KV: kv}}, ops[i+1:]...)
+			ops = append(ops[:i+1:i+1], rest...)
+			break
+		}
+	}
 	// In one build out of three, read-only operations are interleaved with the
 	// setter calls (a program logs a packet with String(), sizes it, or even
 	// writes it, and then keeps filling it in): by C11 they must not matter.
